@@ -229,7 +229,9 @@ def run_pairs(block, ctx):
 
 # -- metric -------------------------------------------------------------------
 
-SEPS = [1e-7, 1e-6, 1e-5, 1e-4, 1e-3, 1e-2, 1.0, 30.0, 90.0, 150.0, 179.0, 179.9, 179.99, 179.999]
+SEPS = [1e-7, 1e-6, 1e-5, 1e-4, 1e-3, 1e-2, 1.0, 30.0, 90.0, 150.0, 179.0, 179.9, 179.99, 179.999,
+        # a few 1e-9 degree either side of quadrature (a guard that takes "almost 90" for 90)
+        90.0 - 5e-9, 90.0 + 5e-9, 90.0 - 3e-9, 90.0 + 2e-9, 90.0 + 2e-8, 90.0 - 1e-6, 90.0 + 1e-4]
 PAS = [0.0, 37.0, 90.0, 200.0]
 BASES = [(lo, la) for lo in (0.0, 10.0, 123.0, 359.9999) for la in (-89.0, -30.0, 0.0, 45.0, 88.0)]
 
@@ -538,7 +540,7 @@ def run_near_param(block, ctx):
 
 # -- output-side seams: inputs whose IMAGE lies next to a quadrant boundary of the result -------------------------
 
-OUT_DELTAS = [0.0, 1e-8, -1e-8, 1e-7, -1e-7, 1e-6, -1e-6, 1e-5, -1e-5, 1e-4, -1e-3]
+OUT_DELTAS = [0.0, 2e-9, -3e-9, 5e-9, -5e-9, 1e-8, -1e-8, 1e-7, -1e-7, 1e-6, -1e-6, 1e-5, -1e-5, 1e-4, -1e-3]
 OUT_LATS = [-70.0, -20.0, 0.0, 35.0, 80.0]
 
 
